@@ -3,7 +3,10 @@
 # The repository's own functions are executed, unmodified, on symbolic scalars (SV / SB)
 # carried in NumPy object arrays (SA).  Branches on symbolic conditions fork (re-execution
 # with a decision prefix); obligations are discharged as z3 queries.  See /verif/DESIGN.md §2.
-import z3, math, time, types, sys, contextlib, itertools
+import z3, math, time, types, sys, contextlib, itertools, os
+TRACE = bool(os.environ.get('SYMX_TRACE'))
+RLIMIT_PER_MS = 4000
+RESOLVE_TIMEOUT_MS = 2000   # mask-element resolution is an optimisation: unresolved elements stay as ite terms
 from fractions import Fraction
 import numpy as _np
 
@@ -17,7 +20,7 @@ class Abort(BaseException):
 class Stats:
     def __init__(self):
         self.queries = 0; self.q_lin = 0; self.q_nl = 0; self.solver_s = 0.0
-        self.unknown = 0; self.paths = 0; self.aborted = 0; self.q_stageA = 0
+        self.unknown = 0; self.paths = 0; self.aborted = 0; self.q_stageA = 0; self.q_stage0 = 0
     def add(self, o):
         for k in self.__dict__:
             setattr(self, k, getattr(self, k) + getattr(o, k))
@@ -46,6 +49,7 @@ class Ctx:
         self.inputs = {}        # name -> z3 const (declared symbolic inputs)
         self.opaque = {}
         self.opaque_args = {}   # opaque var name -> (fn, argument SV)
+        self.ranges = {}        # var name -> (lo, hi) known interval (None = unbounded)
         self.notes = []
         self.model = None
         self.concrete = None    # dict name->float in concrete replay mode
@@ -72,6 +76,14 @@ class Ctx:
         r = z3.unknown
         self.model = None
         if not noslice and not want_model and extra:
+            # stage 0 (sound for unsat): only constraints over the query's own variables
+            qv = set().union(*[free_vars(x) for x in extra])
+            sub = [c_ for c_ in cons if free_vars(c_) <= qv]
+            if len(sub) < len(cons):
+                s0 = z3.Solver(); s0.set('timeout', min(tmo, 1500)); s0.add(*(sub + extra))
+                if timed_check(s0, min(tmo, 1500)) == z3.unsat:
+                    st.q_stage0 += 1; st.solver_s += time.time() - t
+                    return z3.unsat
             # stage A (sound for unsat: fewer constraints): only the *linear* path constraints, re-sliced
             lin = [c_ for c_ in cons if is_linear(c_)]
             if len(lin) < len(cons):
@@ -83,7 +95,7 @@ class Ctx:
                     except z3.Z3Exception: r0 = z3.unknown
                 if r0 != z3.unsat:
                     s0 = z3.Solver(); s0.set('timeout', min(tmo, 3000)); s0.add(*(lin + extra))
-                    r0 = s0.check()
+                    r0 = timed_check(s0, min(tmo, 3000))
                 if r0 == z3.unsat:
                     st.solver_s += time.time() - t
                     return z3.unsat
@@ -99,12 +111,17 @@ class Ctx:
             st.q_nl += 1
             s = z3.Solver(); s.set('timeout', tmo)
             s.add(*allc)
-            r = s.check()
+            r = timed_check(s, tmo)
             if r == z3.sat:
                 self.model = s.model()
         st.solver_s += time.time() - t
         if r == z3.unknown:
             st.unknown += 1
+        if TRACE and (time.time() - t > 1.0 or r == z3.unknown):
+            import traceback
+            fr = [f for f in traceback.extract_stack()[:-1] if 'symx/core.py' not in f.filename]
+            print(f'[symx] {r} {time.time() - t:.1f}s cons={len(allc)} at ' + ' <- '.join(f'{os.path.basename(f.filename)}:{f.lineno}' for f in fr[-3:][::-1]),
+                  '| query:', str(extra[0])[:200].replace(chr(10), ' ') if extra else '-', flush=True)
         return r
 
     def _record(self, entry, term):
@@ -196,6 +213,17 @@ def _num(mv):
         raise Abort(f'cannot evaluate model value {mv}')
 
 
+# ---------------------------------------------------------------- solver call with a watchdog
+import threading
+def timed_check(s, tmo_ms):
+    """z3 does not always honour its own timeout inside preprocessing/nlsat; interrupt from a timer"""
+    s.set('rlimit', int(tmo_ms) * RLIMIT_PER_MS)      # nlsat honours the resource limit, not always the timeout
+    try:
+        return s.check()
+    except z3.Z3Exception:
+        return z3.unknown
+
+
 # ---------------------------------------------------------------- slicing
 _fv_cache = {}
 def free_vars(t):
@@ -256,6 +284,98 @@ def slice_constraints(cons, query):
                 if not fv <= need:
                     need |= fv; changed = True
     return [c for c, k in zip(cons, keep) if k]
+
+
+# ---------------------------------------------------------------- interval bounds
+def _fr(v):
+    if z3.is_int_value(v): return Fraction(v.as_long())
+    return Fraction(v.numerator_as_long(), v.denominator_as_long())
+
+
+def interval(t, ranges, _memo=None):
+    """sound enclosure (lo, hi) of a term from the declared ranges of its variables; None = unbounded"""
+    if _memo is None: _memo = {}
+    k = t.get_id()
+    if k in _memo: return _memo[k][1]
+    tr = ranges.get('#terms')
+    if tr:
+        hit = tr.get(k)
+        if hit is not None and hit[0].eq(t):
+            _memo[k] = (t, hit[1]); return hit[1]
+    r = _interval(t, ranges, _memo)
+    _memo[k] = (t, r)
+    return r
+
+
+def _imul(a, b):
+    if None in a or None in b:
+        return (None, None)
+    ps = [a[0] * b[0], a[0] * b[1], a[1] * b[0], a[1] * b[1]]
+    return (min(ps), max(ps))
+
+
+def _interval(t, ranges, memo):
+    if z3.is_rational_value(t) or z3.is_int_value(t):
+        v = _fr(t); return (v, v)
+    if not z3.is_app(t): return (None, None)
+    kind = t.decl().kind(); ch = t.children()
+    if kind == z3.Z3_OP_UNINTERPRETED and not ch:
+        return ranges.get(t.decl().name(), (None, None))
+    iv = [interval(c, ranges, memo) for c in ch] if kind != z3.Z3_OP_ITE else None
+    if kind == z3.Z3_OP_ADD:
+        lo = None if any(i[0] is None for i in iv) else sum(i[0] for i in iv)
+        hi = None if any(i[1] is None for i in iv) else sum(i[1] for i in iv)
+        return (lo, hi)
+    if kind == z3.Z3_OP_SUB:
+        lo, hi = iv[0]
+        for i in iv[1:]:
+            lo = None if lo is None or i[1] is None else lo - i[1]
+            hi = None if hi is None or i[0] is None else hi - i[0]
+        return (lo, hi)
+    if kind == z3.Z3_OP_UMINUS:
+        lo, hi = iv[0]
+        return (None if hi is None else -hi, None if lo is None else -lo)
+    if kind == z3.Z3_OP_MUL:
+        r = iv[0]
+        for i in iv[1:]: r = _imul(r, i)
+        return r
+    if kind == z3.Z3_OP_DIV:
+        d = iv[1]
+        if None in d or d[0] <= 0 <= d[1]: return (None, None)
+        return _imul(iv[0], (1 / d[1], 1 / d[0]))
+    if kind == z3.Z3_OP_POWER and z3.is_int_value(ch[1]) and ch[1].as_long() >= 0:
+        r = (Fraction(1), Fraction(1))
+        for _ in range(ch[1].as_long()): r = _imul(r, iv[0])
+        if ch[1].as_long() % 2 == 0 and r[0] is not None and r[0] < 0: r = (Fraction(0), r[1])
+        return r
+    if kind == z3.Z3_OP_ITE:
+        a = interval(ch[1], ranges, memo); b = interval(ch[2], ranges, memo)
+        lo = None if a[0] is None or b[0] is None else min(a[0], b[0])
+        hi = None if a[1] is None or b[1] is None else max(a[1], b[1])
+        # |x| pattern: If(x >= 0, x, -x)
+        if lo is not None and hi is not None and ch[0].decl().kind() == z3.Z3_OP_GE and ch[0].arg(0).eq(ch[1]):
+            lo = max(lo, Fraction(0)) if (a[0] is not None and a[0] >= 0) or True else lo
+            if a[0] is not None and a[1] is not None:
+                x0, x1 = a
+                lo = Fraction(0) if x0 <= 0 <= x1 else min(abs(x0), abs(x1))
+                hi = max(abs(x0), abs(x1))
+        return (lo, hi)
+    if kind == z3.Z3_OP_TO_REAL:
+        return iv[0]
+    return (None, None)
+
+
+def _set_range(c, z, lo, hi):
+    c.ranges[z.decl().name()] = (lo, hi)
+    if lo is not None: c.axioms.append(z >= z3.RealVal(str(lo)) if z.sort() != z3.IntSort() else z >= math.floor(lo))
+    if hi is not None: c.axioms.append(z <= z3.RealVal(str(hi)) if z.sort() != z3.IntSort() else z <= math.ceil(hi))
+
+
+def _fsqrt(x, up):
+    """rational outward-rounded square root"""
+    if x <= 0: return Fraction(0)
+    f = Fraction(math.sqrt(float(x)))
+    return f * (Fraction(1000001, 1000000) if up else Fraction(999999, 1000000))
 
 
 # ---------------------------------------------------------------- division elimination
@@ -437,7 +557,7 @@ def check_linearized(cons, timeout_ms=60000):
     s.set('timeout', timeout_ms)
     for c in cons:
         s.add(L.lin(_som(c)))
-    return s.check()
+    return timed_check(s, timeout_ms)
 
 
 # ---------------------------------------------------------------- scalar values
@@ -704,6 +824,8 @@ class SV:
         r = c.fresh('sqrt')
         c.opaque[key] = r
         c.axioms.append(z3.And(r >= 0, r * r == st))
+        lo, hi = interval(st, c.ranges)
+        _set_range(c, r, _fsqrt(lo, False) if lo is not None and lo > 0 else Fraction(0), _fsqrt(hi, True) if hi is not None else None)
         return SV(r)
     def cos(s): return opaque('cos', s)
     def sin(s): return opaque('sin', s)
@@ -828,6 +950,7 @@ def opaque(fn, s):
         c.opaque[key] = v
         if fn in _RANGE:
             c.axioms.append(z3.And(v >= _RANGE[fn][0], v <= _RANGE[fn][1]))
+            c.ranges[v.decl().name()] = (Fraction(_RANGE[fn][0]), Fraction(_RANGE[fn][1]))
         if fn == 'acos':
             c.axioms.append(z3.And(v >= 0, v <= _const(math.pi)))
             c.axioms.append(z3.Implies(st < 1, v > 0)); c.axioms.append(z3.Implies(st > -1, v < _const(math.pi)))
@@ -857,9 +980,27 @@ def var(name, lo=None, hi=None, integer=False, deadzone=None):
     v = SV(z)
     if lo is not None: assume(v >= lo)
     if hi is not None: assume(v <= hi)
+    c.ranges[name] = (None if lo is None else Fraction(repr(lo)) if isinstance(lo, float) else Fraction(lo),
+                      None if hi is None else Fraction(repr(hi)) if isinstance(hi, float) else Fraction(hi))
     if deadzone is not None:
         assume((v == 0) | (v >= deadzone) | (v <= -deadzone))
     return v
+
+
+def assume_range(x, lo, hi):
+    """assume lo <= x <= hi for a derived term and make the enclosure known to the interval
+    analysis (used for the bounds of max/min/sqrt auxiliaries)"""
+    if not isinstance(x, SV):
+        if not (lo <= x <= hi): raise Abort('assumption false')
+        return
+    c = ctx()
+    assume(x >= lo); assume(x <= hi)
+    t = z3.simplify(x.t)
+    f = lambda v: Fraction(repr(v)) if isinstance(v, float) else Fraction(v)
+    for tt in (t, x.t):
+        if z3.is_const(tt) and tt.decl().kind() == z3.Z3_OP_UNINTERPRETED:
+            c.ranges[tt.decl().name()] = (f(lo), f(hi))
+        c.ranges.setdefault('#terms', {})[tt.get_id()] = (tt, (f(lo), f(hi)))
 
 
 def assume(b):
@@ -1063,7 +1204,7 @@ def _masked_store(arr, mask, val):
         c = mask[k]
         if isinstance(c, SB):
             c = _resolve(c)
-            if isinstance(c, SB) and cx.check(c.t, term(v[k]) != term(base[k])) == z3.unsat:
+            if isinstance(c, SB) and cx.check(c.t, term(v[k]) != term(base[k]), timeout_ms=min(cx.timeout_ms, RESOLVE_TIMEOUT_MS)) == z3.unsat:
                 c = False
         base[k] = ite(c if isinstance(c, SB) else bool(c), v[k], base[k])
 
@@ -1072,8 +1213,9 @@ def _resolve(c):
     """decide a symbolic condition from the path condition if it is already implied"""
     if not isinstance(c, SB): return bool(c)
     cx = ctx()
-    if cx.check(c.t) == z3.unsat: return False
-    if cx.check(z3.Not(c.t)) == z3.unsat: return True
+    tm = min(cx.timeout_ms, RESOLVE_TIMEOUT_MS)
+    if cx.check(c.t, timeout_ms=tm) == z3.unsat: return False
+    if cx.check(z3.Not(c.t), timeout_ms=tm) == z3.unsat: return True
     return c
 
 
@@ -1130,6 +1272,9 @@ def amax(a, axis=None, **k):
         c = ctx(); m = c.fresh('max', 'I' if all(_isint(v) for v in vals) else 'R')
         for v in vals: c.axioms.append(m >= term(v))
         c.axioms.append(z3.Or(*[m == term(v) for v in vals]))
+        ivs = [interval(term(v), c.ranges) for v in vals]
+        _set_range(c, m, None if all(i[0] is None for i in ivs) else max(i[0] for i in ivs if i[0] is not None),
+                   None if any(i[1] is None for i in ivs) else max(i[1] for i in ivs))
         return SV(m)
     return _wrap(_np.apply_along_axis(lambda v: amax(v), axis, a))
 
@@ -1143,6 +1288,9 @@ def amin(a, axis=None, **k):
         c = ctx(); m = c.fresh('min', 'I' if all(_isint(v) for v in vals) else 'R')
         for v in vals: c.axioms.append(m <= term(v))
         c.axioms.append(z3.Or(*[m == term(v) for v in vals]))
+        ivs = [interval(term(v), c.ranges) for v in vals]
+        _set_range(c, m, None if any(i[0] is None for i in ivs) else min(i[0] for i in ivs),
+                   None if all(i[1] is None for i in ivs) else min(i[1] for i in ivs if i[1] is not None))
         return SV(m)
     return _wrap(_np.apply_along_axis(lambda v: amin(v), axis, a))
 
